@@ -65,6 +65,26 @@ pub fn run(tier: Tier) -> i32 {
         }
         // filters
         let lz = (mbi(0x21), mbi(1), vec![0x16u8]);
+        // IDs of five and more multibyte bytes whose 7-bit groups fold onto 0x21 when a decoder shifts, adds or xors the
+        // high groups into the wrong place
+        let mut folds: Vec<u64> = Vec::new();
+        for sh in [28u32, 35, 42, 49, 56] {
+            for h in [1u64, 0x20, 0x21, 0x42] {
+                for low in [0x21 ^ h, 0x21u64.wrapping_sub(h) & 0x7F, 0x21] {
+                    folds.push((h << sh) | low);
+                }
+            }
+        }
+        folds.sort_unstable();
+        folds.dedup();
+        folds.retain(|v| *v != 0x21 && *v < (1 << 63));
+        for id in &folds {
+            for bi in 0..f.blocks.len().min(1) {
+                let mut g = f.clone();
+                g.blocks[bi].o_filters = Some(vec![(mbi(*id), mbi(1), vec![0x16u8])]);
+                items.push((format!("[{}] block {} filter ID {:#x} (wide multibyte integer that folds onto 0x21), LZMA2-style properties", bn, bi, id), xz::build(&g).0, false, 0));
+            }
+        }
         let others: Vec<(u64, Vec<u8>)> = vec![
             (0x03, vec![0]),             // delta, distance 1
             (0x04, vec![]),              // x86 BCJ
@@ -152,6 +172,16 @@ pub fn run(tier: Tier) -> i32 {
                 }
             }
             rds.push(Rd { period: *split, ..Rd::default() });
+        }
+        if *split > 0 {
+            // a hiccup of the source (Other / Interrupted / WouldBlock / TimedOut, once, at any call) may be retried or reported,
+            // but it cannot turn a file that must be refused into a success
+            let probe = crate::cases::run_case(&Case::Dec { fmt: Fmt::Xz, opts: Opts::default(), input: Hex(bytes.clone()), rd: Rd { cuts: vec![usize::MAX], ..Rd::default() }, sk: Sk::default() });
+            for k in 0..probe.reads {
+                for kind in 0..4u8 {
+                    rds.push(Rd { cuts: vec![usize::MAX], fail_at: Some(k), fail_kind: kind, ..Rd::default() });
+                }
+            }
         }
         for rd in rds {
             let case = Case::Dec { fmt: Fmt::Xz, opts: Opts::default(), input: Hex(bytes.clone()), rd, sk: Sk::default() };
